@@ -40,6 +40,8 @@ func main() {
 		}
 	}
 	seed, _ := strconv.Atoi(os.Getenv("VERIF_SEED"))
-	os.Exit(gosym.RunCheck(gosym.CheckOptions{Prop: flag.Arg(0), Tier: t, Workers: w, VerifDir: *verif,
-		Verbose: *verbose, Trace: *trace, Only: *only, NoReplay: *noreplay, Seed: seed, SolverLog: *slog}))
+	code := gosym.RunCheck(gosym.CheckOptions{Prop: flag.Arg(0), Tier: t, Workers: w, VerifDir: *verif,
+		Verbose: *verbose, Trace: *trace, Only: *only, NoReplay: *noreplay, Seed: seed, SolverLog: *slog})
+	gosym.DumpForkProfile()
+	os.Exit(code)
 }
